@@ -89,3 +89,54 @@ for _const in (True, False):
                     properties=("C20",), min_obligations=1, no_replay=True,
                     note=f"producer {'const' if _const else 'op'}; aliases {sorted(_aliases)}; declared {_declared}; label {_label}"))
 CONTRACTS += [create, add_sink]
+
+
+# =================================================================================================
+# entity_emitter.format_entity_description (C20: "the combinator producing it carries the variable's name and source line"):
+# the description of an entity with debug information contains the variable's NAME as a separate word — for every named (non
+# intermediate) producer — the source LINE (as `[file:line]` or `[line N]`) whenever one is recorded, `(output anchor)` for anchors and
+# `-> <signal>` when the signal is known; an intermediate node of a named computation says which name it computes.
+# String formatting is outside the P subset; evaluated on the REAL function over an enumerated box: bounded.
+# =================================================================================================
+FDQ = "dsl_compiler/src/emission/entity_emitter.py::format_entity_description"
+
+
+def _desc_post(a, res):
+    d = a.debug_info
+    if not d:
+        return res == ""
+    words = res.split(" ")
+    var, ctx, line, fname, sig = d.get("variable", ""), d.get("expr_context"), d.get("line"), d.get("source_file", ""), d.get("signal_type")
+    intermediate = bool(var) and var.startswith(("arith_", "decider_", "const_", "wire_merge_"))
+    ok = []
+    if intermediate and ctx:
+        ok.append(f"computing {ctx}" in res)
+    elif var:
+        ok.append(var in words)
+    if line:
+        base = fname.replace("\\", "/").split("/")[-1] if fname else ""
+        ok.append((f"[{base}:{line}]" if base else f"[line {line}]") in words or (f"[line {line}]" in res))
+    if d.get("operation") == "output":
+        ok.append("(output anchor)" in res)
+    if sig:
+        ok.append(res.endswith(f"-> {sig}"))
+    return all(ok)
+
+
+describe = Contract(qualname=FDQ, params={"debug_info": ty.TOpaque("info")},
+                    ensures=[("carries the variable's name (or the name it computes), the source line, the anchor mark and the signal", _desc_post)],
+                    verify=False, properties=("C20",), note="evaluated on the real function over an enumerated box (bounded stand-in)")
+CONTRACTS.append(describe)
+
+
+def describe_arg_sets():
+    import itertools
+    out = [{"debug_info": None}, {"debug_info": {}}]
+    for var, ctx, line, fname, op, sig in itertools.product(
+            ("total", "x", "arith_12", "decider_3", "", "my_out"), (None, "total"), (None, 1, 42), ("", "prog.facto", "/a/b/prog.facto", "C:\\\\x\\\\p.facto"),
+            (None, "arith", "decider", "const", "output", "memory"), (None, "signal-A", "iron-plate")):
+        d = {"variable": var, "expr_context": ctx, "line": line, "source_file": fname, "operation": op, "signal_type": sig}
+        if op in ("arith", "decider", "const", "memory"):
+            d["details"] = {"arith": "op=+", "decider": "cond=>", "const": "value=5", "memory": "cell"}[op]
+        out.append({"debug_info": {k: v for k, v in d.items() if v is not None}})
+    return out
